@@ -209,6 +209,8 @@ def run(scn, loop):
     import zlib
     in_handler = zlib.crc32(json.dumps({k: v for k, v in cfg.items() if k != 'kind'}, sort_keys=True).encode()) % 2 == 1   # by content (the same for both halves)
     for rnd in range(cfg.get('rounds', 1)):
+        if rnd and cfg.get('perreq2', cfg['perreq']) != cfg['perreq']:
+            kwargs['_retry_strategy'] = make_strategy(cfg['perreq2'])       # another strategy object for this request
         if rnd:
             # the next request on the SAME client, strategy and tracer objects
             st.ev.append({'ev': 'Again'})
